@@ -1,6 +1,6 @@
 SPECIFICATION TSpec
 CONSTANTS
-  Guids = {"g1", "g2", "g3", "g4"}
+  Guids = {"g1", "g2", "g3", "g4", "g5", "g6"}
   RuleIds = {"", "r0", "r1", "r2", "r3"}
   Contents = {"c1", "c2", "c3"}
   Versions = {"1.0", "2.0"}
@@ -8,7 +8,11 @@ CONSTANTS
   RulesKey = "item"
   IdsIdentifyContent = FALSE
   IncOf <- ZeroInc
+  StatusInc = 0
+  LocalNeedsIncarnationMatch = FALSE
   KeepHigherIncarnation = FALSE
+  ReuseUnattested = FALSE
+  ReadBackFailOpen = FALSE
   StateEarly = FALSE
   InitScenarios = {"fresh"}
   InitDocs = {}
